@@ -15,9 +15,10 @@ package main
 //	       | xb:<m> | xr:<m> | xe:<m>                only as the LAST op and with one shard: a crash INSIDE an operation —
 //	                xb: a block-rotation pass (like b) that dies right after the m-th completed step of rotateBlock
 //	                    (flushBlock ; DeleteWAL of each WAL file ; initNewDpWal); xe: a meta-WAL write (like e) that dies
-//	                    right after the m-th step of Wal.Write (truncate); xr: the writer crashes between two ops as
-//	                    usual, the FIRST restart dies right after the m-th completed step of RecoverWALData (deleteWalFile
-//	                    of each file ; flushBlock of the group), a second restart recovers completely.  With fewer than m
+//	                    right after the m-th step of Wal.Write (OpenFile of the temp file ; writeBlockToFile ; Sync ; Rename);
+//	                    xr: the writer crashes between two ops as usual, the FIRST restart dies right after the m-th
+//	                    completed step of RecoverWALData (flushBlock of the group ; deleteWalFile of each file — or only
+//	                    the deleteWalFiles of a group whose first WAL file is gone), a second restart recovers completely.  With fewer than m
 //	                    steps the operation runs to its end.  The steps are found with the crash points that overlaygen
 //	                    inserts into copies of the current source (utils.VerifCrashPoint, as for C07): a first run on a
 //	                    scratch copy logs the points, the real run is killed at the chosen one (VERIF_CRASH_AT).
@@ -758,7 +759,12 @@ func c10rIsStep(sub byte) func(string, []string) bool {
 				(fn == "cleanAndInitNewDpWal" && c10rHas(calls, "initNewDpWal"))
 		}
 	case 'e':
-		return func(fn string, calls []string) bool { return fn == "Write" && c10rHas(calls, "truncate") }
+		// Wal.Write: open <file>.tmp ; write version + block ; Sync ; Rename  (before the repair c10-4: truncate ; write —
+		// "truncate" stays a step so that dying after an in-place truncation is exercised again should it come back)
+		return func(fn string, calls []string) bool {
+			return fn == "Write" && (c10rHas(calls, "truncate") || c10rHas(calls, "OpenFile") || c10rHas(calls, "writeBlockToFile") ||
+				c10rHas(calls, "Sync") || c10rHas(calls, "Rename"))
+		}
 	default:
 		return func(fn string, calls []string) bool {
 			return fn == "RecoverWALData" && (c10rHas(calls, "deleteWalFile") || c10rHas(calls, "flushBlock"))
@@ -1323,6 +1329,19 @@ func execWalRecover(line string) Result {
 	// the meta WAL — must have an entry after recovery, equal to one of the written ones (when a segment was rotated
 	// after the last meta-WAL write, recovery appends the older WAL snapshot behind the rotation entry and the reader
 	// keeps the last one: granted, both were logged)
+	// the writer died inside a meta-WAL write: the snapshot that was being written (the shards as they were then) is
+	// accepted as well — the process may have died right after the write became visible
+	newSnap := func(nk nkey, got map[string]int) bool {
+		if !(crashed && xop.sub == 'e') {
+			return false
+		}
+		for _, sh := range last {
+			if sh.Mid == nk.mid && sh.Suffix == nk.seg && got["blocks"] == int(sh.CurrBlockNum) && got["dps"] == int(sh.DpCount) {
+				return true
+			}
+		}
+		return false
+	}
 	metaKeys := map[nkey]bool{}
 	for k := range metaWant {
 		metaKeys[k] = true
@@ -1336,7 +1355,7 @@ func execWalRecover(line string) Result {
 		wl, okW := metaWal[nk]
 		if !ok {
 			pf("meta-entry-lost", fmt.Sprintf("shard %s segment %d: its meta entry was written (rotation or meta WAL) but metricmeta.json has none after recovery", nk.mid, nk.seg))
-		} else if !(okR && got["blocks"] == rot[0] && got["dps"] == rot[1]) && !(okW && got["blocks"] == wl[0] && got["dps"] == wl[1]) {
+		} else if !(okR && got["blocks"] == rot[0] && got["dps"] == rot[1]) && !(okW && got["blocks"] == wl[0] && got["dps"] == wl[1]) && !newSnap(nk, got) {
 			pf("meta-entry-lost", fmt.Sprintf("shard %s segment %d: meta entry after recovery blocks=%d dps=%d is none of the written ones (rotation %v %v, meta WAL %v %v)", nk.mid, nk.seg, got["blocks"], got["dps"], okR, rot, okW, wl))
 		}
 	}
@@ -1479,7 +1498,7 @@ func genWalRecover(r *rand.Rand, n int, tier string) []string {
 				}
 				m := 1 + r.Intn(files+3)
 				if sub == "e" {
-					m = 1 + r.Intn(3)/2 // Wal.Write has one step to die after (truncate)
+					m = 1 + r.Intn(5) // Wal.Write: OpenFile, writeBlockToFile, Sync, Rename
 				}
 				emit(fmt.Sprintf("x%s:%d", sub, m))
 			}))
